@@ -587,6 +587,9 @@ def gen_normalize(tier):
             "data": draw(data_specs(("float64", "float64", "float32"))),
             "r": draw(resolutions(geo, _res_kinds(geo))),
             "pseed": [draw(st.integers(0, 2**20)), draw(st.integers(0, 2**20))],
+            # amplitude of the data (power of two: exact): normalisation is scale-free, so tiny or
+            # huge absolute integrals (SI units, mm-sized cells) must behave like order-one ones
+            "amp_exp": draw(st.sampled_from([0, 0, -20, -40, -60, 30])),
         }
 
     return strat()
@@ -598,6 +601,9 @@ def check_normalize(case):
     # positive image (non-zero integral per time step / component), general reference
     f_img = _field(geo, data, gg, case["pseed"][0], positive=True)
     f_ref = _field(geo, data, gg, case["pseed"][1])
+    amp = 2.0 ** case.get("amp_exp", 0)
+    f_img = f_img * amp
+    f_ref = f_ref * amp
     a_img = _prolong(f_img, gg, r)
     a_ref = _prolong(f_ref, gg, r)
     g = build_geometry(geo)
@@ -642,7 +648,8 @@ def check_normalize(case):
         raise Violation("normalize-rescale", "normalized image is not image x ratio", t)
     if not np.array_equal(img.img, a_img) or not np.array_equal(ref.img, a_ref):
         raise Violation("normalize-mutates", "normalize modified its arguments", t)
-    return Outcome(True, _key(case), _labels(geo, data, [r]) + (data["dtype"],), evals=2)
+    return Outcome(True, [_key(case), case.get("amp_exp", 0)],
+                   _labels(geo, data, [r]) + (data["dtype"], f"amp2^{case.get('amp_exp', 0)}"), evals=2)
 
 
 # ---------------------------------------------------------------------------------------
